@@ -151,3 +151,35 @@ func verifHarness_C10_dirtyContext() {
 	verifAssert(o.raw == http.ResponseWriter(rec), "the writer wraps the new underlying writer")
 	verifAssert(rec.whCalls == 1 && prevRec.whCalls == 0, "the response goes to the new writer only, committed once")
 }
+
+
+// HandleContext re-dispatches a context a handler already used: everything
+// request-scoped except the writer must be reset before the new dispatch.
+func verifHarness_C10_handleContext() {
+	r := New()
+	o := &verifObs{}
+	r.GET("/d/{id}", verifObserveCtx(o))
+	ctx := r.ctxPool.Get().(*Context)
+	rec := verifNewWriter()
+	req := verifRequest("GET", "/d/7")
+	ctx.Init(rec, req)
+	ctx.index = verifInt8("index")
+	if verifBool("hasData") {
+		ctx.Set("stale", "v")
+	}
+	if verifBool("hasParams") {
+		ctx.Params = Params{"id": "old", "zz": "1"}
+	}
+	for i := verifChoice("nerr", 3); i > 0; i-- {
+		ctx.AddError(verifErr{})
+	}
+	staleRan := false
+	ctx.handlers = HandlersChain{func(c *Context) { staleRan = true }}
+	r.HandleContext(ctx)
+	verifAssert(o.seen && !staleRan, "the re-dispatched context runs the matched route's handlers only")
+	verifAssert(!o.hasStale && o.nData == 2, "context data holds only what this dispatch set")
+	verifAssert(o.nParams == 1 && o.id == "7" && !o.stale, "Params holds exactly this request's variables")
+	verifAssert(o.nErrors == 0 && !o.aborted && o.index == 0, "errors, abort state and cursor are reset")
+	verifAssert(o.ownResp && o.req == req, "the context keeps its request and its own writer")
+	verifCover("C10 HandleContext")
+}
